@@ -65,7 +65,8 @@ def make_helper(h):
 case_strategy = st.fixed_dictionaries({
     "hdr": header_strategy,
     "pix_frac": st.tuples(f(0, 1), f(0, 1)),          # (row frac, col frac) inside the image
-    "form": st.sampled_from(["tuple", "tuple", "list", "array"]),     # how positions are handed to the helper
+    # how positions are handed to the helper; the int forms use whole-pixel positions typed as integers
+    "form": st.sampled_from(["tuple", "tuple", "list", "array", "int-tuple", "int-array"]),
     "r": f(1, 20), "ratio": f(0.2, 1.0),
     "theta": st.one_of(f(-180, 180, exclude_min=True), st.sampled_from([0.0, 90.0, 180.0, -90.0, 45.0])),
 })
@@ -85,14 +86,22 @@ def check_case(c):
     x = 1 + c["pix_frac"][0] * (n2 - 1)
     y = 1 + c["pix_frac"][1] * (n1 - 1)
     theta, r, ratio = c["theta"], c["r"], c["ratio"]
+    if c.get("form", "tuple").startswith("int"):
+        x, y = float(round(x)), float(round(y))
     # call form of the position argument: the relations are stated for the CALLER's values, so an argument that comes
     # back changed breaks them for every caller that goes on using it
     form = c.get("form", "tuple")
 
     def H(name, p, q, *rest):
-        arg = (p, q) if form == "tuple" else [p, q] if form == "list" else np.array([p, q], dtype=np.float64)
+        whole = form.startswith("int") and float(p) == int(p) and float(q) == int(q)      # (sky positions stay floats)
+        if whole and form == "int-tuple":
+            arg = (int(p), int(q))
+        elif whole:
+            arg = np.array([int(p), int(q)], dtype=np.int64)
+        else:
+            arg = (p, q) if form in ("tuple", "int-tuple") else [p, q] if form == "list" else np.array([p, q], dtype=np.float64)
         out = getattr(helper, name)(arg, *rest)
-        if form != "tuple" and not (float(arg[0]) == float(p) and float(arg[1]) == float(q)):
+        if not isinstance(arg, tuple) and not (float(arg[0]) == float(p) and float(arg[1]) == float(q)):
             res.bad("input-modified", "%s(%s position) changed its argument from (%r, %r) to (%r, %r)" % (
                 name, form, p, q, float(arg[0]), float(arg[1])), proj=h["proj"])
         return out
